@@ -104,15 +104,65 @@ def _run_one(i):
                 "unsupported": [f"crash {e!r}"], "engine_error": traceback.format_exc()}
 
 
+def _child(i, conn):
+    try:
+        conn.send(_run_one(i))
+    except BaseException as e:  # pragma: no cover
+        try:
+            conn.send({"target": _TARGETS[i].id, "function": getattr(_TARGETS[i], "func", ""), "status": "undecided",
+                       "obligations": [], "unsupported": [f"worker crash {e!r}"]})
+        except Exception:
+            pass
+    finally:
+        conn.close()
+
+
 def run_targets(targets, jobs=None):
+    """one forked process per target (killed at its deadline: a solver call that ignores its own
+    timeout cannot hang the check), at most `jobs` at a time"""
     global _TARGETS
     _TARGETS = targets
     jobs = jobs or min(16, os.cpu_count() or 4)
-    if len(targets) <= 1 or os.environ.get("PYVC_SERIAL"):
+    if os.environ.get("PYVC_SERIAL"):
         return [_run_one(i) for i in range(len(targets))]
     ctx = multiprocessing.get_context("fork")
-    with cf.ProcessPoolExecutor(max_workers=jobs, mp_context=ctx) as ex:
-        return list(ex.map(_run_one, range(len(targets))))
+    results = [None] * len(targets)
+    pending = list(range(len(targets)))
+    running = {}
+    while pending or running:
+        while pending and len(running) < jobs:
+            i = pending.pop(0)
+            parent, child = ctx.Pipe(duplex=False)
+            p = ctx.Process(target=_child, args=(i, child))
+            p.start()
+            child.close()
+            deadline = time.time() + getattr(targets[i], "timeout", 600) + 60
+            running[i] = (p, parent, deadline)
+        for i, (p, conn, deadline) in list(running.items()):
+            if conn.poll(0.02):
+                try:
+                    results[i] = conn.recv()
+                except EOFError:
+                    results[i] = None
+                p.join(5)
+                if p.is_alive():
+                    p.kill()
+                del running[i]
+            elif not p.is_alive():
+                p.join()
+                del running[i]
+            elif time.time() > deadline:
+                p.kill()
+                p.join()
+                del running[i]
+                results[i] = {"target": targets[i].id, "function": getattr(targets[i], "func", ""), "status": "undecided",
+                              "obligations": [], "unsupported": [f"killed at hard deadline ({getattr(targets[i], 'timeout', 600) + 60}s)"]}
+        time.sleep(0.01)
+    for i, r in enumerate(results):
+        if r is None:
+            results[i] = {"target": targets[i].id, "function": getattr(targets[i], "func", ""), "status": "undecided",
+                          "obligations": [], "unsupported": ["worker died without a result"]}
+    return results
 
 
 def safe(s):
